@@ -47,6 +47,14 @@ def _consts(fn: Fn, e) -> Optional[List[str]]:
 def _uses_of(fn: Fn, name: str, after: ast.AST) -> List[ast.Name]:
     """Load occurrences of *name* in fn located after statement *after* (or anywhere inside an enclosing loop)."""
     st = enclosing_stmt(after)
+    # the uses this binding reaches (CFG): independent of source positions, which mean nothing for inlined helper bodies
+    from .dataflow import uses_reached
+    if isinstance(st, (ast.Assign, ast.AugAssign, ast.AnnAssign, ast.For, ast.With, ast.Expr, ast.If, ast.While, ast.Return)):
+        got = uses_reached(fn, st, name)
+        if got is not None:
+            if isinstance(st, (ast.For, ast.While)):
+                return got
+            return [n for n in got if not _inside(n, st) or isinstance(after, ast.NamedExpr)]
     loops = [a for a in ancestors(after) if isinstance(a, (ast.For, ast.While))]
     out = []
     for n in walk_fn(fn.node):
@@ -131,6 +139,12 @@ def classify(fn: Fn, node: ast.AST, depth=0, seen=None) -> List[Role]:
             if isinstance(op, (ast.Is, ast.IsNot)) and isinstance(o, ast.Constant) and o.value is None:
                 return [("TRUTH", None, p)]
             c = _consts(fn, o)
+            if isinstance(op, (ast.In, ast.NotIn)) and c is None:
+                # membership in a LIST of recorded spellings (an attribute that starts as [] and is only appended to) is a
+                # comparison between spellings, not a substring test: invariant under consistent renaming
+                container = p.comparators[0]
+                if list_store_attr(container) is not None:
+                    return [("IDCOMPARE", text(container if p.left is node else p.left), p)]
             if isinstance(op, (ast.Eq, ast.NotEq, ast.In, ast.NotIn)):
                 if c is not None:
                     if isinstance(op, (ast.In, ast.NotIn)) and p.left is not node:
@@ -209,6 +223,36 @@ def classify(fn: Fn, node: ast.AST, depth=0, seen=None) -> List[Role]:
     if isinstance(p, ast.Raise):
         return [("MESSAGE", "raise", p)]
     return [("UNCLASSIFIED", type(p).__name__, p)]
+
+
+_LIST_STORES = {}
+
+
+def list_store_attrs(prog=None):
+    """Attribute names that hold a list of recorded values: every assignment `<x>.A = ...` in the program binds `[]` / `list()`
+    and every other write is `.append()` / `.extend()` / `.remove()` / `.pop()` / `.clear()`."""
+    from .model import program
+    prog = prog or program()
+    if id(prog) in _LIST_STORES:
+        return _LIST_STORES[id(prog)]
+    good, bad = set(), set()
+    for fn in prog.fns:
+        for n in walk_fn(fn.node):
+            if isinstance(n, (ast.Assign, ast.AnnAssign)):
+                tg = n.targets if isinstance(n, ast.Assign) else [n.target]
+                for t in tg:
+                    if isinstance(t, ast.Attribute) and n.value is not None:
+                        v = n.value
+                        empty = (isinstance(v, ast.List) and not v.elts) or (isinstance(v, ast.Call) and text(v.func) == "list" and not v.args)
+                        (good if empty else bad).add(t.attr)
+            elif isinstance(n, ast.AugAssign) and isinstance(n.target, ast.Attribute) and not isinstance(n.op, ast.Add):
+                bad.add(n.target.attr)
+    _LIST_STORES[id(prog)] = good - bad
+    return _LIST_STORES[id(prog)]
+
+
+def list_store_attr(e) -> Optional[str]:
+    return e.attr if isinstance(e, ast.Attribute) and e.attr in list_store_attrs() else None
 
 
 def guarded_constants(fn: Fn, use) -> Optional[List[str]]:
